@@ -28,7 +28,7 @@ RULE = (
     "non-trivial = sequence containing at least one failure (F/N/R) i.e. exercising the retry/give-up logic; distinct by sequence"
 )
 LEVEL_TEXT = "All bounded outcome sequences of the scripted connection-state request are run against the real heartbeat in virtual time and compared, event by event, with a reference automaton (period from xknx.io.const, three immediate repetitions, give up once after four consecutive failures or a raise, quiet end when the connection is gone, nothing after stop)."
-LEVEL_NOTE = "The connection-state request itself is scripted (its own timeout is modelled as a 10 s wait); virtual time; single-threaded asyncio."
+LEVEL_NOTE = "Part 1: the connection-state request is scripted; part 2: the real UDPTunnel heartbeat against the simulated gateway answering ConnectionStateRequests ok / error status / not at all (all plans up to length 5 quick, 8 thorough), control frames on the wire compared with the reference timeline incl. the reconnect after four failures and silence after disconnect(). Details of part 1: the request is scripted (its own timeout is modelled as a 10 s wait); virtual time; single-threaded asyncio."
 ASSUMPTIONS = [
     "send_connectionstate is scripted: S=(True,None) F=(False,'E_CONNECTION_ID') N=10 s then (False,None) R=raise CommunicationError G=None",
     "the heartbeat period is configuration read from xknx.io.const.HEARTBEAT_RATE (70 s on the pinned tree); run() additionally requires period + 4 x 10 s request timeout <= 120 s, the server-side CONNECTION_ALIVE_TIME of Core 03.08.02 §5.4, so four failed requests fit before the server drops the channel",
@@ -212,6 +212,116 @@ def _hyp_shard(ctx, n: int) -> None:
     hyp_search(ctx, histories(), _hyp_oracle, n)
 
 
+# ---------------------------------------------------------------------------
+# Tunnel level: the real UDPTunnel's heartbeat against the simulated gateway.
+
+NET = 0.005  # simulated one-way network delay (vk.simgw.NET_DELAY)
+REQ_TIMEOUT = 10.0
+
+
+def tunnel_model(plan: str, auto_reconnect: bool, horizon: float):
+    """Expected client->server control frames as (kind, time): hb / disc / connect."""
+    ev = [("connect", 0.0)]
+    t_up = NET  # handshake delivered
+    i = 0
+    while True:
+        t = t_up
+        lost = False
+        while not lost:
+            t += PERIOD
+            if t >= horizon:
+                return ev
+            nfail = 0
+            while True:
+                o = plan[i] if i < len(plan) else "o"
+                i += 1
+                ev.append(("hb", t))
+                if o == "o":
+                    t += NET
+                    break
+                t += NET if o == "e" else REQ_TIMEOUT
+                nfail += 1
+                if nfail == 4:
+                    lost = True
+                    break
+                if t >= horizon:
+                    return ev
+        # connection declared lost at t
+        ev.append(("disc", t))
+        if not auto_reconnect:
+            return ev
+        ev.append(("connect", t + NET))
+        t_up = t + 2 * NET
+
+
+def tunnel_execute(plan: str, auto_reconnect: bool, horizon: float):
+    from xknx import XKNX
+    from xknx.io.tunnel import UDPTunnel
+
+    from vk.simgw import GW_ADDR, SimGateway
+
+    gw = SimGateway()
+    gw.hb_plan = [{"o": "ok", "e": "err", "d": "drop"}[c] for c in plan]
+
+    async def scenario(loop):
+        gw.attach(loop)
+        xknx = XKNX()
+        tunnel = UDPTunnel(xknx, lambda raw: None, gateway_ip=GW_ADDR[0], gateway_port=GW_ADDR[1], local_ip="10.0.0.2", auto_reconnect=auto_reconnect, auto_reconnect_wait=3)
+        await tunnel.connect()
+        await asyncio.sleep(horizon - loop.time())
+        t_disc = loop.time()
+        try:
+            await tunnel.disconnect()
+        except Exception:  # noqa: BLE001
+            pass
+        await asyncio.sleep(3 * PERIOD)
+        xknx.started.clear()
+        return t_disc
+
+    t_disc, loop = run_case(scenario, max_iters=200_000)
+    if gw.errors:
+        from vk.core import HarnessError
+
+        raise HarnessError("simulator error: " + gw.errors[0])
+    names = {"ConnectionStateRequest": "hb", "DisconnectRequest": "disc", "ConnectRequest": "connect"}
+    ev = [(names[e["kind"]], e["t"]) for e in gw.log if e["dir"] == "c2s" and e["kind"] in names]
+    return ev, t_disc, loop.escaped
+
+
+def check_tunnel_case(ctx, plan: str, auto_reconnect: bool) -> None:
+    horizon = (len(plan) + 2) * (PERIOD + 4 * REQ_TIMEOUT) + 1.234
+    inp = {"tunnel_hb_plan": plan, "auto_reconnect": auto_reconnect}
+    try:
+        ev, t_disc, escaped = tunnel_execute(plan, auto_reconnect, horizon)
+    except (BudgetExceeded, Deadlock):
+        ctx.notes["inconclusive"] = ctx.notes.get("inconclusive", 0) + 1
+        return
+    exp = tunnel_model(plan, auto_reconnect, horizon)
+    for e in escaped:
+        ctx.fail(f"C26:tunnel-escaped:{type(e['exception']).__name__}", inp, e["repr"])
+    before = [(k, t) for k, t in ev if t < t_disc - 1e-9]
+    after = [(k, t) for k, t in ev if t >= t_disc - 1e-9]
+    if any(k in ("hb", "connect") for k, _ in after):
+        ctx.fail("C26:tunnel-heartbeat-after-disconnect", inp, f"frames after user disconnect at {t_disc}: {after}")
+    same = len(before) == len(exp) and all(a[0] == b[0] and abs(a[1] - b[1]) < 1e-6 for a, b in zip(before, exp))
+    if not same:
+        nb, ne = sum(k == "disc" for k, _ in before), sum(k == "disc" for k, _ in exp)
+        kind = "gave-up-count" if nb != ne else "request-times"
+        ctx.fail(f"C26:tunnel:{kind}", inp, f"control frames {before[:14]} ... reference {exp[:14]}")
+
+
+def _tunnel_shard(ctx, length: int, first: str) -> None:
+    n = nt = 0
+    for rest in itertools.product("oed", repeat=max(0, length - 1)):
+        plan = (first + "".join(rest))[:length]
+        for ar in (True, False):
+            check_tunnel_case(ctx, plan, ar)
+            n += 1
+            nt += 1 if plan.strip("o") else 0
+    ctx.bulk(n, nt, f"tunnel-len{length}")
+    ctx.sample({"tunnel_hb_plan": plan, "model": tunnel_model(plan, True, 900.0)[:8]})
+
+
 def run(ctx) -> None:
     if not (0 < PERIOD and PERIOD + 4 * 10 <= 120):
         ctx.fail("C26:period-exceeds-alive-time", {"period": PERIOD}, f"heartbeat period {PERIOD} s + 4 x 10 s > 120 s CONNECTION_ALIVE_TIME")
@@ -225,9 +335,15 @@ def run(ctx) -> None:
                 jobs.append((length, "".join(p)))
     parallel(ctx, _enum_shard, jobs)
     parallel(ctx, _hyp_shard, [(ctx.n(150, 2500),)] * 8)
+    tl = ctx.n(5, 8)
+    parallel(ctx, _tunnel_shard, [(0, "o")] + [(length, f) for length in range(1, tl + 1) for f in "oed"])
+    ctx.notes["tunnel_level_exhaustive_up_to_length"] = tl
     ctx.exhaustive = False
     ctx.notes["exhaustive_up_to_length"] = maxlen
 
 
 def replay(ctx, case) -> None:
+    if "tunnel_hb_plan" in case:
+        check_tunnel_case(ctx, case["tunnel_hb_plan"], bool(case["auto_reconnect"]))
+        return
     check_case(ctx, case["outs"], [float(x) for x in case["starts"]], [float(x) for x in case["stops"]], float(case["horizon"]))
